@@ -283,7 +283,7 @@ def run_program(prog: T.Sequence[Node], af: int) -> T.Dict[str, T.Any]:
     out: T.Dict[str, T.Any] = {'st': 'ok', 'fi': 0, 'em': [], 'text': text}
     err: T.Optional[BaseException] = None
     signal.signal(signal.SIGALRM, _alarm)
-    signal.alarm(30)
+    signal.alarm(180)       # generous: the sandbox is shared and run_command forks
     try:
         ast = mparser.Parser(text, 'x04.build').parse()
         intr.evaluate_codeblock(ast)
